@@ -25,7 +25,7 @@ SPEC = dict(
     test="TestVerifC03",
     level="fault_enumeration",
     workers=16,
-    deadline={"quick": 280, "thorough": 2400},
+    deadline={"quick": 420, "thorough": 2400},
     rule="two families of input layouts. (1) prefix histories: every (content, layout shape) reachable by a prefix history over {write batches, flush} up to the length "
          "bound (equivalent inputs explored once); for each layout each applicable reorganisation {level compaction, full compaction, "
          "out-of-order merge, full out-of-order merge} runs under the lib/fileops recorder; (a) completion: dump equals the dump before; "
